@@ -297,6 +297,16 @@ func (w *wbuild) driveRemote(s *simrt.Sched, out *RunResult, u *Universe, cs *wb
 			ext0[k] = v
 		}
 		w.dirInWay = map[string]bool{}
+		for _, l := range w.U.Labels() {
+			sp := w.U.Specs[l]
+			for _, o := range sp.Outs {
+				if o.Kind != "dir" {
+					if st, err := os.Lstat(filepath.Join(ws, sp.Pkg, o.Path)); err == nil && st.IsDir() {
+						w.dirInWay[l] = true // as in the single-machine driver: left open
+					}
+				}
+			}
+		}
 		f.fired = 0
 		f.inv++
 		if opts.Remote {
@@ -447,6 +457,12 @@ func (w *wbuild) driveRemote(s *simrt.Sched, out *RunResult, u *Universe, cs *wb
 		case "edit":
 			snapshots = append(snapshots, w.U.Clone())
 			nu, ed := genEdit(c, w.U, w.g, snapshots)
+			if ed.Op == "toggle-nocache" && ed.Target != "" {
+				if w.toggled == nil {
+					w.toggled = map[string]bool{}
+				}
+				w.toggled[ed.Target] = true
+			}
 			w.mu.Lock()
 			w.U = nu
 			w.mu.Unlock()
